@@ -107,8 +107,8 @@ def aval(v, _depth=0, _seen=None):
     if isinstance(v, (list, dict)):
         if _seen is None:
             _seen = set()
-        if id(v) in _seen or _depth > 40:
-            return {'t': 'alien', 'py': 'cycle'}
+        if _depth >= 16:
+            return {'t': 'deep'}
         _seen = _seen | {id(v)}
         if isinstance(v, list):
             return {'t': 'array', 'v': [aval(x, _depth + 1, _seen) for x in v]}
